@@ -62,6 +62,20 @@ def gen_cases(tier: str, seed: int):
         yield {"spec": spec, "ispec": ispec, "frac": float(np.exp(rng.uniform(np.log(0.3), np.log(4.0)))),
                "n": int(rng.choice([1, 2, 4])), "dir": int(rng.choice([-1, 1])), "seed": [seed, int(rng.integers(0, 2**31))],
                "hostile": True}
+    yield from _more_cases(tier, seed, rng)
+
+
+def _more_cases(tier, seed, rng):
+    # hostile implicit family: non-separable (Riemannian) Hamiltonians with large steps and large momenta, where the
+    # implicit equations have several roots -- a step that would not be undone must be refused, never returned
+    for i in range({"quick": 480, "thorough": 12000}[tier]):
+        k = zoo.RIEMANNIAN[i % len(zoo.RIEMANNIAN)]
+        spec = zoo.random_sys_spec(rng, kinds=(k,), dim_range=(1, 3))
+        ik = ("implicit_leapfrog", "implicit_leapfrog", "implicit_leapfrog", "implicit_midpoint")[(i // len(zoo.RIEMANNIAN)) % 4]
+        ispec = intgen.random_int_spec(rng, k, tight=False, kinds=(ik,))
+        yield {"spec": spec, "ispec": ispec, "frac": float(np.exp(rng.uniform(np.log(0.8), np.log(6.0)))),
+               "n": int(rng.choice([1, 1, 1, 2])), "dir": int(rng.choice([-1, 1])), "seed": [seed, int(rng.integers(0, 2**31))],
+               "hostile": True, "mom_scale": float(rng.uniform(3.0, 12.0))}
 
 
 def run_case(case, obs) -> None:  # noqa: C901, PLR0912, PLR0915
@@ -71,6 +85,7 @@ def run_case(case, obs) -> None:  # noqa: C901, PLR0912, PLR0915
     rng = np.random.default_rng([abs(int(s)) for s in case["seed"]])
     m = zoo.Model(spec)
     q, p = m.random_point(rng)
+    p = p * case.get("mom_scale", 1.0)
     # the hostile family deliberately ignores the curvature of the manifold when sizing the step
     eps = case["frac"] / intgen.frequency(m, q, curvature=not case.get("hostile", False))
     ispec["step_size"] = eps
@@ -78,8 +93,7 @@ def run_case(case, obs) -> None:  # noqa: C901, PLR0912, PLR0915
     iname = type(integ).__name__
     sname = type(m.system).__name__
     explicit = ispec["int"] in ("leapfrog", "bcss2", "bcss3", "bcss4", "symcomp")
-    z0 = np.concatenate([q, p])
-    maxnorm = [float(np.max(np.abs(z0)))]
+    maxnorm = [0.0]
 
     def step(st):
         """One monitored call of the real Integrator.step."""
@@ -117,64 +131,107 @@ def run_case(case, obs) -> None:  # noqa: C901, PLR0912, PLR0915
         maxnorm[0] = max(maxnorm[0], float(np.max(np.abs(zz))))
         return out
 
-    st = m.state(q, p, case["dir"])
-    try:
-        for _ in range(case["n"]):
-            st = step(st)
-        z_mid = np.concatenate([st.pos, st.mom])
-        st.dir *= -1
-        for _ in range(case["n"]):
-            st = step(st)
-    except IntegratorError:
-        obs.count("round_trips_failed_loudly")
-        return
-    obs.count("round_trips_completed")
-    if maxnorm[0] > 50 * (1 + np.max(np.abs(z0))):
-        obs.inconc("trajectory-diverged")
-        return
-    err = float(np.max(np.abs(np.concatenate([st.pos, st.mom]) - z0)))
-    scale = 1 + maxnorm[0]
-    # sensitivity of the n-step map (how much per-step tolerance-level errors are amplified on the way back):
-    # forward run from a slightly displaced, re-projected start
-    def sensitivity(zs, direction, ref_end):
-        """Amplification of a 1e-6 displacement of the start zs by n steps in the given direction."""
-        delta = 1e-6 * rng.standard_normal(zs.size)
-        q2, p2 = zs[: m.dim] + delta[: m.dim], zs[m.dim:] + delta[m.dim:]
-        if m.constrained:
-            q2 = m.constraint.project(q2, np.linalg.inv(m.metric_dense))
-            p2 = m.ref_projector(q2) @ p2
-        s2 = m.state(q2, p2, direction)
-        for _ in range(case["n"]):
-            s2 = integ.step(s2)
-        d0 = float(np.max(np.abs(np.concatenate([q2, p2]) - zs)))
-        return float(np.max(np.abs(np.concatenate([s2.pos, s2.mom]) - ref_end))) / max(d0, 1e-12)
+    def trip(q, p, direction, label):
+        z0 = np.concatenate([q, p])
+        maxnorm[0] = float(np.max(np.abs(z0)))
+        result["err"] = None
+        st = m.state(q, p, direction)
+        leg = 1
+        try:
+            for _ in range(case["n"]):
+                st = step(st)
+            z_mid = np.concatenate([st.pos, st.mom])
+            st.dir *= -1
+            leg = 2
+            mid_state = st.copy()
+            for _ in range(case["n"]):
+                st = step(st)
+        except IntegratorError as e:
+            obs.count("round_trips_failed_loudly")
+            obs.count(f"failed_loudly.leg{leg}")
+            if leg == 2 and case["n"] == 1 and not explicit:
+                # the outward step returned a state, i.e. vouched for its own reversal, yet the reversed step from exactly
+                # that state raises. The reversed step repeats the solves of the outward step's reversibility checks, so
+                # this can only be an iteration-limit borderline -- decided by repeating it with a 20x iteration budget
+                kw = dict(ispec.get("solver_kwargs", {}))
+                kw["max_iters"] = 20 * kw.get("max_iters", 100)
+                generous = zoo.make_integrator(m, dict(ispec, solver_kwargs=kw))
+                obs.count("back_leg_retries")
+                try:
+                    back = generous.step(mid_state)
+                    off = float(np.max(np.abs(np.concatenate([back.pos, back.mom]) - z0)))
+                except IntegratorError:
+                    off = np.inf
+                if off <= 1e-6 * (1 + maxnorm[0]):
+                    obs.inconc("back-leg-iteration-limit-borderline")
+                else:
+                    obs.violation(f"returned-step-not-undone:{iname}:{sname}{label}",
+                                  f"one step succeeded but the reversed step from its result raises {type(e).__name__} ({e}) and "
+                                  f"{'raises again' if off == np.inf else 'lands %.3e away from the start' % off} with a 20x iteration budget"
+                                  f"{label}; eps={eps:.4g} frac={case['frac']:.3g} sys={spec} int={ispec}")
+            return
+        obs.count("round_trips_completed")
+        if maxnorm[0] > 50 * (1 + np.max(np.abs(z0))):
+            obs.inconc("trajectory-diverged")
+            return
+        err = float(np.max(np.abs(np.concatenate([st.pos, st.mom]) - z0)))
+        result["err"] = err
+        scale = 1 + maxnorm[0]
+        # sensitivity of the n-step map (how much per-step tolerance-level errors are amplified on the way back):
+        # forward run from a slightly displaced, re-projected start
+        def sensitivity(zs, direction, ref_end):
+            """Amplification of a 1e-6 displacement of the start zs by n steps in the given direction. The undisplaced
+            reference is re-run here as well, so that the estimate compares two runs made under the same conditions
+            (a repeat that differs from the first run is counted, it is not by itself a violation of this property)."""
+            s0 = m.state(zs[: m.dim].copy(), zs[m.dim:].copy(), direction)
+            for _ in range(case["n"]):
+                s0 = integ.step(s0)
+            again = np.concatenate([s0.pos, s0.mom])
+            obs.count("repeat_leg_checks")
+            if float(np.max(np.abs(again - ref_end))) > 1e-12 * (1 + float(np.max(np.abs(ref_end)))):
+                obs.count("repeat_leg_differs")
+            ref_end = again
+            delta = 1e-6 * rng.standard_normal(zs.size)
+            q2, p2 = zs[: m.dim] + delta[: m.dim], zs[m.dim:] + delta[m.dim:]
+            if m.constrained:
+                q2 = m.constraint.project(q2, np.linalg.inv(m.metric_dense))
+                p2 = m.ref_projector(q2) @ p2
+            s2 = m.state(q2, p2, direction)
+            for _ in range(case["n"]):
+                s2 = integ.step(s2)
+            d0 = float(np.max(np.abs(np.concatenate([q2, p2]) - zs)))
+            return float(np.max(np.abs(np.concatenate([s2.pos, s2.mom]) - ref_end))) / max(d0, 1e-12)
 
-    sens = 1.0
-    try:
-        # errors made on the way out are amplified by the way back and vice versa: take the larger of both legs
-        sens = max(1.0, sensitivity(z0, case["dir"], z_mid), sensitivity(z_mid, -case["dir"], np.concatenate([st.pos, st.mom])))
-    except (IntegratorError, FloatingPointError, np.linalg.LinAlgError):
-        obs.inconc("sensitivity-not-measurable")
-        return
-    obs.maxi("sensitivity", sens)
-    if sens > 1e4:
-        obs.inconc("trajectory-too-sensitive")
-        return
-    if explicit:
-        tol = 1e-11 * scale * case["n"] * sens
-        fam = "explicit"
-    elif ispec.get("tight"):
-        tol = 1e-9 * scale * sens
-        fam = "implicit-tight" if not m.constrained else "constrained-tight"
-    else:
-        tol = 2e-7 * scale * case["n"] * sens
-        fam = "implicit-default" if not m.constrained else "constrained-default"
-    obs.maxi(f"return_error_over_tol.{fam}", err / tol, {"int": ispec, "sys": spec["sys"], "n": case["n"], "eps": eps})
-    obs.maxi(f"return_error.{fam}", err / scale)
-    if err > tol:
-        obs.violation(f"not-reversible:{iname}:{sname}",
-                      f"{case['n']} steps, dir flip, {case['n']} steps returns with error {err:.3e} > {tol:.3e}; eps={eps:.4g} "
-                      f"frac={case['frac']:.3g} sys={spec} int={ispec}")
+        sens = 1.0
+        try:
+            # errors made on the way out are amplified by the way back and vice versa: take the larger of both legs
+            sens = max(1.0, sensitivity(z0, direction, z_mid), sensitivity(z_mid, -direction, np.concatenate([st.pos, st.mom])))
+        except (IntegratorError, FloatingPointError, np.linalg.LinAlgError):
+            obs.inconc("sensitivity-not-measurable")
+            return
+        obs.maxi("sensitivity", sens)
+        if sens > 1e4:
+            obs.inconc("trajectory-too-sensitive")
+            return
+        if explicit:
+            tol = 1e-11 * scale * case["n"] * sens
+            fam = "explicit"
+        elif ispec.get("tight"):
+            tol = 1e-9 * scale * sens
+            fam = "implicit-tight" if not m.constrained else "constrained-tight"
+        else:
+            tol = 2e-7 * scale * case["n"] * sens
+            fam = "implicit-default" if not m.constrained else "constrained-default"
+        obs.maxi(f"return_error_over_tol.{fam}", err / tol, {"int": ispec, "sys": spec["sys"], "n": case["n"], "eps": eps})
+        obs.maxi(f"return_error.{fam}", err / scale)
+        if err > tol:
+            obs.violation(f"not-reversible:{iname}:{sname}{label}",
+                          f"{case['n']} steps, dir flip, {case['n']} steps returns with error {err:.3e} > {tol:.3e}; eps={eps:.4g} "
+                          f"frac={case['frac']:.3g}{label} sys={spec} int={ispec}")
+
+    result = {}
+    trip(q, p, case["dir"], "")
+    err = result["err"]
     # the step size of a live integrator is reassigned by the adapters: a reused integrator must step exactly like a
     # freshly constructed one with the new step size
     eps2 = eps * float(rng.uniform(0.3, 1.2))
@@ -188,6 +245,22 @@ def run_case(case, obs) -> None:  # noqa: C901, PLR0912, PLR0915
             obs.violation(f"stale-after-step-size-change:{iname}", f"after integrator.step_size was reassigned a step differs from a fresh integrator's; sys={spec} int={ispec}")
     except IntegratorError:
         pass
+    integ.step_size = eps
+    # the metric of a live system is reassigned by the metric adapters at the end of warm-up: a system (and integrator)
+    # that has already been stepped at this step size must stay reversible afterwards
+    if spec["sys"] in zoo.TRACTABLE and case.get("reassign", True) and not case.get("hostile"):
+        d2 = int(rng.choice([-1, 1]))
+        try:
+            integ.step(m.state(q, p, d2))  # the last flow before the reassignment has the time step the next trip starts with
+        except IntegratorError:
+            pass
+        new_kind = str(rng.choice(["diag", "dense", "scaled", "chol_lower", "eig"]))
+        new_arg, new_dense = zoo.const_metric(new_kind, m.dim, rng)
+        m.system.metric = new_arg
+        m.metric_dense = new_dense
+        q2, p2 = m.random_point(rng)
+        obs.count("round_trips_after_metric_reassignment")
+        trip(q2, p2, d2, f":after-metric-reassignment")
     fc = "small" if case["frac"] < 0.05 else ("mid" if case["frac"] < 0.4 else "large")
     obs.token(spec["sys"], spec.get("metric", spec.get("constr", "-")), ispec["int"], intgen.stages(ispec),
               ispec.get("solver", "-"), ispec.get("tight"), fc, case["dir"])
